@@ -53,7 +53,9 @@ void do_plan(int tier)
   }
   else
     plan.init_threads = sim_plan(3) ? 1 + (int)sim_plan(4) : 0;
-  sim_set_cores(2 + (int)sim_plan(4));
+  int cores = 2 + (int)sim_plan(4);
+  sim_set_cores(cores);
+  sim_set_affinity(sim_plan(6) == 0 ? 1 + (int)sim_plan((uint32_t)cores - 1) : 0);  // the process may be confined to fewer CPUs than are online
   sim_set_tso(sim_plan(lane == LANE_INTERNAL ? 2 : 4) == 0);  // x86-TSO store buffering instead of sequential consistency
   plan.interleave = (int)sim_plan(2);
   plan.nitems = 1 + (int)sim_plan(C02_MAXITEMS);
